@@ -1,13 +1,15 @@
 #!/bin/bash
-# usage: tools/seedq3.sh "<ID> <checks...>" "<ID> <checks...>" ...   -- evaluates /tmp/seed2out_<ID>/{1,2} one after another (round 2)
+# usage: [SEEDROUND=2|3] tools/seedq3.sh "<ID> <checks...>" "<ID> <checks...>" ...
+#   evaluates /tmp/seed<R>out_<ID>/{1,2} one after another as <ID>-r<R>-<k>
+R=${SEEDROUND:-2}
 mkdir -p /tmp/seedq
 for spec in "$@"; do
   set -- $spec
   ID="$1"; shift
   for k in 1 2; do
-    if [ -f /tmp/seed2out_$ID/$k/patch.diff ] && [ ! -f /verif/seeded/${ID}-r2-$k/eval.json ]; then
-      /usr/bin/python3 /verif/tools/seedeval.py /tmp/seed2out_$ID/$k ${ID}-r2-$k "$@" > /tmp/seedq/${ID}-r2-$k.log 2>&1
+    if [ -f /tmp/seed${R}out_$ID/$k/patch.diff ] && [ ! -f /verif/seeded/${ID}-r${R}-$k/eval.json ]; then
+      /usr/bin/python3 /verif/tools/seedeval.py /tmp/seed${R}out_$ID/$k ${ID}-r${R}-$k "$@" > /tmp/seedq/${ID}-r${R}-$k.log 2>&1
     fi
   done
-  echo "done2 $ID $(date +%T)" >> /tmp/seedq/done.log
+  echo "done${R} $ID $(date +%T)" >> /tmp/seedq/done.log
 done
